@@ -681,3 +681,49 @@ class CalculatorReads:
 def demangle_name(fn, attr):
     from .loader import demangle
     return demangle(fn, attr)
+
+
+# ----------------------------------------------------------------------
+# objects rebuilt from stored parameters
+def stored_param_rebuilds(prog, cls):
+    """Calls of a bath-function constructor, in any method of cls, whose parameter argument derives from the
+    stored `.params` of an existing object (directly, through dictionary copies, or through a list the
+    method fills from them).  Stored parameters are in internal units; the constructor converts from the
+    units current at the call, so such a call is right only under energy_units('int').
+    Returns [(FuncInfo, call node, inside internal units?, text of the argument)]."""
+    out = []
+    for fn in cls.methods.values():
+        tainted = set()
+        changed = True
+
+        def dirty(e):
+            for x in ast.walk(e):
+                if isinstance(x, ast.Attribute) and x.attr == "params" and isinstance(x.ctx, ast.Load):
+                    return True
+                if isinstance(x, ast.Name) and isinstance(x.ctx, ast.Load) and x.id in tainted:
+                    return True
+            return False
+        while changed:
+            changed = False
+            for n in walk_no_nested(fn.node):
+                new = []
+                if isinstance(n, ast.Assign) and dirty(n.value):
+                    new = [t_.id for t_ in n.targets if isinstance(t_, ast.Name)]
+                elif isinstance(n, ast.For) and dirty(n.iter):
+                    new = [x.id for x in ast.walk(n.target) if isinstance(x, ast.Name)]
+                elif isinstance(n, ast.Call) and isinstance(n.func, ast.Attribute) and n.func.attr in ("append", "extend") \
+                        and isinstance(n.func.value, ast.Name) and n.args and dirty(n.args[0]):
+                    new = [n.func.value.id]
+                for v in new:
+                    if v not in tainted:
+                        tainted.add(v)
+                        changed = True
+        pm = parents_map(fn.node)
+        for c in walk_no_nested(fn.node):
+            if isinstance(c, ast.Call) and call_name(c) in CTORS and not (isinstance(c.func, ast.Attribute)
+                                                                         and call_name(c) != norm(c.func).split(".")[-1]):
+                args = list(c.args[1:2]) + [k.value for k in c.keywords if k.arg == "params"]
+                src = [a for a in args if dirty(a)]
+                if src:
+                    out.append((fn, c, in_int_context(pm, c), norm(src[0])))
+    return out
